@@ -10,6 +10,7 @@ import (
 	"strconv"
 	"strings"
 	"sync"
+	"syscall"
 
 	"github.com/caddyserver/caddy/v2"
 	"github.com/caddyserver/caddy/v2/caddyconfig"
@@ -424,7 +425,45 @@ func (ProbeWrapper) CaddyModule() caddy.ModuleInfo {
 
 func (ProbeWrapper) WrapListener(ln net.Listener) net.Listener {
 	logOrd("S3")
-	return ln
+	return flakyListener{ln}
+}
+
+// flakyListener hands out connections that can be declared broken (by the peer's address): from
+// then on writing to them and closing them report EPIPE — a client connection that has broken in a
+// way only a write reveals. The harness uses it for the upgraded stream that is open through a
+// reverse proxy when its configuration ends.
+type flakyListener struct{ net.Listener }
+
+func (l flakyListener) Accept() (net.Conn, error) {
+	c, err := l.Listener.Accept()
+	if err != nil {
+		return c, err
+	}
+	return &flakyConn{Conn: c}, nil
+}
+
+type flakyConn struct{ net.Conn }
+
+var brokenPeers sync.Map // remote address (string) → true
+
+func (c *flakyConn) broken() bool {
+	_, ok := brokenPeers.Load(c.Conn.RemoteAddr().String())
+	return ok
+}
+
+func (c *flakyConn) Write(b []byte) (int, error) {
+	if c.broken() {
+		return 0, &net.OpError{Op: "write", Net: "tcp", Addr: c.Conn.RemoteAddr(), Err: syscall.EPIPE}
+	}
+	return c.Conn.Write(b)
+}
+
+func (c *flakyConn) Close() error {
+	err := c.Conn.Close()
+	if c.broken() {
+		return &net.OpError{Op: "close", Net: "tcp", Addr: c.Conn.RemoteAddr(), Err: syscall.EPIPE}
+	}
+	return err
 }
 
 func init() {
